@@ -20,7 +20,9 @@ SPECS["C17"] = dict(
         "Woodpile.Props.C17.read_n_spec",
         "Woodpile.Props.C17.read_n_releases_unread",
     ],
-    families=[dict(name="readn", quick=3000, thorough=400000)],
+    families=[dict(name="readn", quick=3000, thorough=400000),
+              # Encoder/Decoder-level encode_read / decode_read / read_n with scripted faulty readers, structural model
+              dict(name="codecw", quick=160, thorough=4000, search=800, shards=dict(quick=8, thorough=16), obs_prefixes=["A", "S", "G", "R"])],
     technique="Lean 4 proof (induction over the retry loop, all reader scripts) + model/implementation correspondence",
     design_ref="DESIGN.md section 5, C17",
     level_text=("Kernel-checked theorems about a Lean model of ByteArena::read_n/read_n_impl (Woodpile.ReadN) for every reader "
@@ -30,7 +32,9 @@ SPECS["C17"] = dict(
                 "results, request sizes and arena.remaining(); a direct oracle re-checks the property on the real calls."),
     level_note=("Trusted: Lean kernel + 3 standard axioms; the correspondence harness and its generators; readers that "
                 "return more than the buffer length are outside the model (Read's contract). Encoder/Decoder-level "
-                "encode_read/decode_read are covered through the hcobs families."),
+                "encode_read/decode_read/read_n run in the codecw family (scripted faulty readers; the codec models drive the structural "
+                "iovec model; oracle: reader discipline as for read_n, and drained ++ final output = one-call encoding of payloads plus "
+                "the bytes actually delivered); the theorem side for that composition is read_n_spec + the HCOBS refinement theorems (C01)."),
     trusted_base=["Rust std::io::Read contract (a reader never reports more bytes than the buffer holds)"],
     assumptions=["64-bit usize; allocation failure (OOM abort) not modelled"],
 )
